@@ -138,6 +138,24 @@ def compare_with_model(ctx, design, n):
             wp.update({p: ("OUT", w) for p, w in m["outputs"]})
             if wp != ports:
                 return "blackbox-ports-differ", "%s: %s" % (m["name"], canon.first_diff(wp, ports))
+        else:
+            # not declared: the ports are those the instances name, each as wide as the highest formal bit used - a formal
+            # whose actual is unconn is a pin like any other (present, unconnected)
+            ww, gaps = {}, set()
+            for it in design["items"]:
+                if it["model"] == m["name"] and it["kind"] in ("subckt", "gate"):
+                    named = {}
+                    for (pn, ix, _) in it["pins"]:
+                        ww[pn] = max(ww.get(pn, 0), (ix or 0) + 1)
+                        named.setdefault(pn, set()).add(ix or 0)
+                    for pn, bits in named.items():
+                        if bits != set(range(max(bits) + 1)):
+                            gaps.add(pn)        # a statement that names bit k of a formal but not every bit below it: width not judged
+            got = {p: w for p, (_, w) in ports.items() if p not in gaps}
+            ww = {p: w for p, w in ww.items() if p not in gaps}
+            ctx.count("undeclared_blackbox_port_widths_compared", len(ww))
+            if ww != got:
+                return "undeclared-blackbox-ports-differ", "%s: %s" % (m["name"], canon.first_diff(ww, got))
     return None
 
 
